@@ -855,6 +855,88 @@ theorem shareAll_spec (leader : Msg) (ids : List (Nat × Bool)) : ∀ next, lead
       have := (I2 m hm).1
       omega
 
+/-! ### failover, chain pool -/
+
+theorem failoverLoop_id (m : FoMsg) (l : List FoOutcome) : ∀ fr : Option FoMsg,
+    (∀ r, fr = some r → r.id = m.id) → (failoverLoop m l fr).id = m.id := by
+  induction l with
+  | nil =>
+    intro fr h
+    cases fr with
+    | none => simp [failoverLoop]
+    | some r => simpa [failoverLoop] using h r rfl
+  | cons o t ih =>
+    intro fr h
+    cases o with
+    | err => simpa [failoverLoop] using ih fr h
+    | resp eid rc mk =>
+      simp only [failoverLoop]
+      split
+      · apply ih
+        intro r hr
+        cases fr with
+        | none => simp at hr; subst hr; rfl
+        | some r0 => simp at hr; subst hr; exact h r0 rfl
+      · rfl
+
+def PoolInv (p : ChainPool) : Prop := (p.pooled ++ p.held).Nodup ∧ ∀ c ∈ p.pooled ++ p.held, c < p.next
+
+theorem pool_step_inv (p : ChainPool) (st : PoolStep) (h : PoolInv p) : PoolInv (p.step st) := by
+  obtain ⟨hn, hb⟩ := h
+  cases st with
+  | get =>
+    unfold ChainPool.step
+    cases hp : p.pooled with
+    | nil =>
+      simp only
+      rw [hp] at hn hb
+      refine ⟨?_, ?_⟩
+      · simp only [List.nil_append, List.nodup_cons]
+        refine ⟨?_, by simpa using hn⟩
+        intro hm
+        have := hb p.next (by simpa using hm)
+        omega
+      · intro c hc
+        simp only [List.nil_append, List.mem_cons] at hc
+        show c < p.next + 1
+        rcases hc with rfl | hc
+        · omega
+        · have := hb c (by simpa using hc); omega
+    | cons c t =>
+      simp only
+      rw [hp] at hn hb
+      refine ⟨?_, ?_⟩
+      · have : (t ++ c :: p.held).Perm ((c :: t) ++ p.held) := by
+          have := (List.perm_middle (a := c) (l₁ := t) (l₂ := p.held))
+          simpa using this
+        exact (this.nodup_iff).mpr hn
+      · intro x hx
+        apply hb x
+        simp only [List.mem_append, List.mem_cons] at hx ⊢
+        rcases hx with hx | hx | hx
+        · exact Or.inl (Or.inr hx)
+        · exact Or.inl (Or.inl hx)
+        · exact Or.inr hx
+  | put c =>
+    unfold ChainPool.step
+    by_cases hc : p.held.contains c = true
+    · simp only [hc, if_true]
+      have hmem : c ∈ p.held := by simpa using hc
+      have hperm : ((c :: p.pooled) ++ p.held.erase c).Perm (p.pooled ++ p.held) := by
+        have h1 : p.held.Perm (c :: p.held.erase c) := List.perm_cons_erase hmem
+        have h2 : (p.pooled ++ p.held).Perm (p.pooled ++ c :: p.held.erase c) := List.Perm.append_left _ h1
+        have h3 : (p.pooled ++ c :: p.held.erase c).Perm (c :: (p.pooled ++ p.held.erase c)) := List.perm_middle
+        exact (h2.trans h3).symm
+      refine ⟨(hperm.nodup_iff).mpr hn, ?_⟩
+      intro x hx
+      exact hb x (hperm.mem_iff.mp hx)
+    · simp only [hc]; exact ⟨hn, hb⟩
+
+theorem pool_run_inv (l : List PoolStep) : ∀ p, PoolInv p → PoolInv (p.run l) := by
+  induction l with
+  | nil => intro p h; exact h
+  | cons st t ih => intro p h; exact ih (p.step st) (pool_step_inv p st h)
+
 /-! ### DNS-over-QUIC -/
 
 theorem doq_run_spec (evs : List DoqEvent) : ∀ c : DoqConn, c.writers = c.streams →
